@@ -12,7 +12,10 @@ use std::io::BufReader;
 
 use std::path::PathBuf;
 use std::sync::mpsc::{SendError, Sender};
+#[cfg(not(feature = "Verif_Hooks"))]
 use std::sync::{Arc, LockResult, Mutex, MutexGuard};
+#[cfg(feature = "Verif_Hooks")]
+use {crate::verif_sync::{Mutex, MutexGuard}, std::sync::{Arc, LockResult}};
 
 #[cfg(feature = "Debug")]
 use crate::common::debug;
